@@ -56,8 +56,8 @@ PLAN = {
             "assumed (C05's subject, not applicable); the consuming `for (wg, wb, loss) in results` is rewritten to `remove(0)` steps (R29)",
             "the group list: `par_chunks(batch)` = consecutive groups of B in order, last one shorter - checked with std's `chunks` on N <= 4, B <= 5 by a bounded "
             "Kani harness on the verbatim statement, assumed beyond that bound and for rayon's implementation",
-            "the epoch loop around the verified region (`for epoch in 1..epochs + 1`: the region runs once per epoch with step number = epoch, until early "
-            "stopping) is read here and executed by C13's bounded slice",
+            "the epoch loop around the epoch region is proved too (unit learn.whole: epoch t runs the region with step number t, until early stopping); in that unit the two "
+            "flag-setting regions and validate() are assumed to leave the weights alone (C09's subject)",
             "std's float `sum` and `usize as f32` are opaque (R27 / R28): 'mean' is proved as (std sum of the per-sample losses in order) / (group size)"],
     ),
     "C08": dict(
@@ -140,11 +140,13 @@ PLAN = {
     ),
     "C13": dict(
         title="Early stopping and the returned histories obey their contract",
-        level="model_checking",
-        verus=[],
+        level="proof",
+        verus=["C04_learn_epoch.rs"],
         kani=True,
-        undecided_clauses=["epoch budgets above 6 and tolerances above 5 (one harness instance per concrete (epochs, tolerance); symbolic bounds run CBMC out of memory)",
-                           "that validate() is called exactly once per epoch with the given data is read off the slice, not proved"],
+        undecided_clauses=["validation losses are required to be non-NaN (the property's trajectories are real numbers): with a NaN entry `!(a <= b)` and `a > b` differ",
+                           "validate() is an assumed function of (network, data) that leaves the network unchanged (C09 / C12 decide what it does); the print blocks are dropped "
+                           "from the unit (scanned: no control flow, no write to the histories)",
+                           "the bounded Kani slice harnesses (epochs <= 6, tolerance <= 5) remain as an independent leg that executes the real early-stopping block"],
     ),
     "C14": dict(
         title="Reshaping and flattening preserve the row-major element sequence",
@@ -340,10 +342,15 @@ MANIFEST_TEXT = {
         note="bounded in sample count and output width; chunk boundary (64) not crossed; oracles stand for predict and the objective.",
     ),
     "C13": dict(
-        category="model_checking",
-        technique="Kani bounded model checking of a mechanical slice of Network::learn (early-stopping block verbatim, validate() as oracle)",
+        category="proof",
+        technique="Verus contract on the WHOLE Network::learn (epoch loop, histories, early-stopping block verbatim; the epoch region outlined to its verified unit) + bounded Kani slice",
         design_ref="DESIGN.md §5 C13",
-        text="Bounded, exhaustive within the bound: learn() is cut mechanically (tools/mirror.py //@slice, with a non-interference scan of "
+        text="Proof for all epoch budgets, all tolerances >= 1 and all non-NaN validation-loss trajectories: the whole Network::learn (mechanically extracted; R13, R30; the "
+             "epoch region replaced by a call to its verified unit, the flag loops / group split replaced by assumed contracts, print blocks dropped after a scan) returns "
+             "between 1 and `epochs` training-loss entries, exactly as many validation-loss and accuracy entries when validation data is given and none (and all epochs) otherwise; "
+             "it returns early only if more than `tolerance` epochs have run and the validation loss strictly increased throughout the last `tolerance` recorded epochs, and at no "
+             "earlier epoch did that predicate hold. Also (C04): epoch t uses step number t and the network ends as after_epochs(n). Additionally, bounded and "
+             "exhaustive within the bound: learn() is cut mechanically (tools/mirror.py //@slice, with a non-interference scan of "
              "every dropped statement) to the statements that touch the histories, the epoch counter and the threshold; CBMC then explores ALL "
              "non-NaN validation-loss trajectories for each concrete (epochs <= 6, tolerance <= 5) instance and checks the three clauses of the "
              "property against a predicate written from the statement. Not a proof for all epoch budgets.",
